@@ -36,7 +36,7 @@ Definition group_spread (c : gcircuit) (g : nat) : bool := existsb has_spread (g
 (* model switch for fixes/proposed_fix_C11_dde_steps.diff (false = the code as it is): with dde_approx > 0 a delay without
    spread is no longer discretised before rate = n/m.  Ring.fixed_D15 (placeholder 0 instead of 1 for an edge without delay)
    acts here too: order = dde_approx if m else 0. *)
-Definition fixed_dde_steps : bool := false.
+Definition fixed_dde_steps : bool := true.
 Definition continuous (c : gcircuit) : bool := fixed_dde_steps && Nat.ltb 0 (gdde c).
 Definition slot_m (c : gcircuit) (e : gedge) : Qc :=
   match gd e with
@@ -85,13 +85,13 @@ Definition spec_params (c : gcircuit) : list (nat * Qc) :=
                 | None => (O, 0%Qc)
                 end) (gedges c).
 
-(* vectorize=True, a source variable with a single unit (scalar), two slots in one chain of order > 0: the chain input
-   index(x, x_src) indexes a scalar -> IndexError at the first call *)
+(* vectorize=True, a source variable with a single unit (scalar), two slots in one chain (also the order-0 pass-through chain of
+   two undelayed edges): the chain input index(x, x_src) indexes a scalar -> IndexError at the first call *)
 Definition units (c : gcircuit) (g : nat) : nat := length (filter (fun n => nsrc n && Nat.eqb (ncls n) g) (gnodes c)).
 Fixpoint shared_chain (c : gcircuit) (l : list gedge) : bool :=
   match l with
   | [] => false
-  | e :: l' => (Nat.ltb 0 (slot_order c e) && existsb (same_chain c e) l') || shared_chain c l'
+  | e :: l' => existsb (same_chain c e) l' || shared_chain c l'
   end.
 Definition gcrashes (c : gcircuit) : bool :=
   gvec c && existsb (fun e => let g := gkey c (gsrc e) in
@@ -186,22 +186,5 @@ Definition g_above_step (c : gcircuit) : bool :=
 Definition g_rates_exact (c : gcircuit) : bool :=
   forallb (fun e => Qceqb (chain_rate c e) (slot_rate c e)) (gedges c).
 Definition g_no_scalar_shared_chain (c : gcircuit) : bool := negb (gcrashes c).
-(* vectorize=True: a chain with >= 2 member slots that does not hold all slots of its source variable is written back through
-   an index array; ComputeGraph._sort_var_updates takes the index constant for the written variable, so the in-edge equation
-   of a target class that precedes the source class in node order is emitted BEFORE the write-back and reads `buffered` one
-   rhs call late (observed on the real code, repaired by fixes/proposed_fix_C11_chain_order.diff; NOT modelled by Impl: this
-   guard only delimits the class) *)
-Definition same_class (a b : node) : bool := Bool.eqb (nsrc a) (nsrc b) && Nat.eqb (ncls a) (ncls b).
-Fixpoint first_pos (f : node -> bool) (l : list node) : nat :=
-  match l with [] => O | x :: l' => if f x then O else S (first_pos f l') end.
-Definition class_pos (c : gcircuit) (i : nat) : nat := first_pos (same_class (gnode c i)) (gnodes c).
-Definition array_writeback (c : gcircuit) (e : gedge) : bool :=
-  let sl := gslots' c (gkey c (gsrc e)) in
-  let m := length (filter (same_chain c e) sl) in
-  Nat.leb 2 m && Nat.ltb m (length sl).
-Definition g_contiguous_chains (c : gcircuit) : bool :=
-  negb (gvec c) ||
-  forallb (fun e => negb (gadd_delay c (gkey c (gsrc e)) && array_writeback c e && Nat.ltb (class_pos c (gtgt e)) (class_pos c (gsrc e))))
-          (gedges c).
 Definition gguards (c : gcircuit) : bool :=
   g_all_spread c && g_no_undelayed_kernel c && g_above_step c && g_rates_exact c && g_no_scalar_shared_chain c.
